@@ -27,6 +27,30 @@ def paramsOf (c : EC.Curve) (hf : String) : Option Params := do
 
 def FUEL : Nat := 10000
 
+/-- optional bytes token: `None` or hex -/
+def optBytes (t : String) : Option (Option Bytes) :=
+  if t == "None" then some none else (fromHex? t).map some
+
+def rOptSig (r : Except Err (Sig × Option EC.Point)) : String :=
+  match r with
+  | .ok (sg, none) => s!"ok {sg.r} {sg.s}"
+  | .ok (sg, some R) => s!"ok {sg.r} {sg.s} {R.1} {R.2}"
+  | .error e => s!"err {e.name}"
+
+def rOptBool (r : Except Err Bool) : String :=
+  match r with | .ok b => (if b then "ok True" else "ok False") | .error e => s!"err {e.name}"
+
+/-- receipt tokens: `None None`, or affine coordinates (`bytes_from_point` refuses what is off the
+    curve / infinity with a ValueError, i.e. `False`, once the signature itself is one) -/
+def verifyOptDrv (c : EC.Curve) (prm : Params) (msg : Bytes) (x : Int) (sg : Sig) (commit : Option Bytes)
+    (rx ry : String) : Option String :=
+  if rx == "None" then some (rOptBool (verifyOpt (EC.ops c) prm FUEL msg x sg commit none))
+  else do
+    let R : EC.Point := (← parseInt? rx, ← parseInt? ry)
+    let onc := R.2 ≠ 0 && EC.isOnCurve c.toCurveGroup R == some true
+    if onc || commit.isNone then pure (rOptBool (verifyOpt (EC.ops c) prm FUEL msg x sg commit (some R)))
+    else pure "ok False"
+
 def rUnit (r : Except Err Unit) : String :=
   match r with | .ok _ => "ok" | .error e => s!"err {e.name}"
 def rSig (r : Except Err Sig) : String :=
@@ -117,6 +141,25 @@ def schnorrOp : List String → Option String
     let commit ← fromHex? commit
     pure (if !onc then "ok False" else
           rBool (verifyCommit (EC.ops c) prm FUEL msg x ⟨r, s⟩ commit R))
+  -- optional-argument spellings: commit token `None` or hex (`_` = present and empty)
+  | ["ssa.signopt", c, hf, msg, q, aux, commit] => do
+    let c ← EC.curveOfToken c; let prm ← paramsOf c hf
+    pure (rOptSig (signOpt (EC.ops c) prm FUEL (← fromHex? msg) (← parseInt? q) (← fromHex? aux) (← optBytes commit)))
+  | ["ssa.signh", c, hf, msg, q, aux, commit] => do
+    let c ← EC.curveOfToken c; let prm ← paramsOf c hf; let (H, _) ← hashOfToken hf
+    pure (rOptSig (signHashed (EC.ops c) prm H FUEL (← fromHex? msg) (← parseInt? q) (← fromHex? aux) (← optBytes commit)))
+  | ["ssa.verifyopt", c, hf, msg, x, r, s, commit, rx, ry] => do
+    let c ← EC.curveOfToken c; let prm ← paramsOf c hf
+    let msg ← fromHex? msg; let x ← parseInt? x; let r ← parseInt? r; let s ← parseInt? s
+    verifyOptDrv c prm msg x ⟨r, s⟩ (← optBytes commit) rx ry
+  | ["ssa.verifyh", c, hf, msg, x, r, s, commit, rx, ry] => do
+    let c ← EC.curveOfToken c; let prm ← paramsOf c hf; let (H, _) ← hashOfToken hf
+    let msg ← fromHex? msg; let x ← parseInt? x; let r ← parseInt? r; let s ← parseInt? s
+    verifyOptDrv c prm (H msg) x ⟨r, s⟩ ((← optBytes commit).map H) rx ry
+  | ["ssa.commitnonce", c, hf, commit, k] => do
+    let c ← EC.curveOfToken c; let prm ← paramsOf c hf
+    pure (match commitNonce (EC.ops c) prm FUEL (← fromHex? commit) (← parseInt? k) with
+          | .ok (k', R) => s!"ok {k'} {R.1} {R.2}" | .error e => s!"err {e.name}")
   | _ => none
 
 def handle (toks : List String) : String :=
